@@ -165,3 +165,122 @@ Proof.
   assert (E5 : be32 (crc32c (ty :: p)) = [a; b; c; d]) by (rewrite <- E2; apply be32_be32_val).
   rewrite E5 in E3. rewrite E3 in E4. apply app_inv_head in E4. inversion E4. contradiction.
 Qed.
+
+(** ** C14_len_field_partial: whatever bytes DecodeRecord is given (after any
+    corruption, in particular of the length word), it accepts only a span that
+    is exactly a well-formed frame whose stored checksum matches its content *)
+Lemma decode_record_ok_inv bs ty p len rest :
+  decode_record bs = DOk ty p len rest ->
+  bs = be32 len ++ (ty :: p) ++ be32 (crc32c (ty :: p)) ++ rest /\ len = blen p + 1 /\ len < two32.
+Proof.
+  unfold decode_record. destruct bs as [|a [|b [|c [|d r]]]]; try discriminate.
+  cbn [rd_be32]. set (L := be32_val a b c d).
+  destruct (L =? 0) eqn:E0; [discriminate|].
+  change (drop 4 (a :: b :: c :: d :: r)) with r.
+  destruct (blen r <? L) eqn:E1; [discriminate|].
+  destruct (rd_be32 (drop L r)) as [crc|] eqn:E2; [|discriminate].
+  destruct (crc =? crc32c (take L r)) eqn:E3; [|discriminate].
+  destruct (take L r) as [|t q] eqn:E4; [discriminate|].
+  intro H. inversion H; subst ty p len rest. clear H.
+  assert (HL : blen (take L r) = L) by (apply blen_take; lia).
+  rewrite E4, blen_cons in HL.
+  apply N.eqb_eq in E3.
+  destruct (drop L r) as [|e [|f [|g [|h r2]]]] eqn:E5; try discriminate.
+  cbn [rd_be32] in E2. inversion E2 as [E6].
+  assert (Hr : r = (t :: q) ++ e :: f :: g :: h :: r2) by (rewrite <- E4, <- E5; symmetry; apply take_drop).
+  assert (Hc : be32 (crc32c (t :: q)) = [e; f; g; h]).
+  { first [rewrite <- E3, <- E6 | rewrite <- E4, <- E3, <- E6]. apply be32_be32_val. }
+  split; [|split; [lia|unfold L; apply be32_val_lt]].
+  unfold L. rewrite be32_be32_val, Hc, Hr. cbn [app]. repeat f_equal; try (now rewrite <- app_assoc).
+Qed.
+
+(** ** value-log / WAL-payload entry record *)
+From NoKV Require Import Base.Varint Model.EntryCodec Proofs.CodecProofs Proofs.ManifestCodecProofs Proofs.CodecRtProofs.
+
+Lemma one_byte_diff_prefix p a b : one_byte_diff a b -> one_byte_diff (p ++ a) (p ++ b).
+Proof.
+  intros [pre [x [y [suf [-> [-> H]]]]]]. exists (p ++ pre), x, y, suf. now rewrite <- !app_assoc.
+Qed.
+
+(** a one-byte change inside key ++ value (lengths unchanged): ErrBadChecksum *)
+Lemma entry_body_corrupt e key' val' rest :
+  entry_ok e -> blen key' = blen (e_key e) -> blen val' = blen (e_val e) ->
+  one_byte_diff (e_key e ++ e_val e) (key' ++ val') ->
+  decode_entry_from (enc_header (blen (e_key e)) (blen (e_val e)) (e_meta e) (e_exp e) ++ key' ++ val' ++
+                     be32 (crc32c (enc_entry_body e)) ++ rest) = EdBadCrc.
+Proof.
+  intros (Hk & Hv & Hm & Hx) Hlk Hlv Hd. destruct e as [key val meta exp]. cbn [e_key e_val e_meta e_exp] in *.
+  unfold enc_entry_body. cbn [e_key e_val e_meta e_exp]. rewrite !u32_small by assumption.
+  set (hd := enc_header (blen key) (blen val) meta exp).
+  set (crc := crc32c (hd ++ key ++ val)).
+  set (bs := hd ++ key' ++ val' ++ be32 crc ++ rest).
+  assert (Hbs : bs = put_uvarint (blen key) ++ put_uvarint (blen val) ++ put_uvarint meta ++ put_uvarint exp ++
+                     key' ++ val' ++ be32 crc ++ rest).
+  { unfold bs, hd, enc_header. now rewrite <- !app_assoc. }
+  assert (H64 : forall x, x < two32 -> x < two64) by (intros; unfold two32, two64 in *; lia).
+  assert (Hh : decode_header_from bs = inr ((blen key, blen val, meta, exp), key' ++ val' ++ be32 crc ++ rest)).
+  { unfold decode_header_from. rewrite Hbs.
+    rewrite rd_var_put by auto. rewrite rd_var_put by auto.
+    assert (Hm64 : meta < two64) by (unfold two64; lia).
+    rewrite rd_var_put by exact Hm64.
+    destruct (255 <? meta) eqn:E; [lia|]. rewrite rd_var_put by exact Hx.
+    now rewrite !u32_small by assumption. }
+  unfold decode_entry_from. rewrite Hh.
+  assert (Hhl : blen bs - blen (key' ++ val' ++ be32 crc ++ rest) = blen hd).
+  { unfold bs. rewrite !blen_app. lia. }
+  rewrite Hhl, <- Hlk, <- Hlv.
+  destruct (blen (key' ++ val' ++ be32 crc ++ rest) <? blen key') eqn:E1; [rewrite blen_app in E1; lia|].
+  rewrite take_app_exact, drop_app_exact.
+  destruct (blen (val' ++ be32 crc ++ rest) <? blen val') eqn:E2; [rewrite blen_app in E2; lia|].
+  rewrite take_app_exact, drop_app_exact, rd_be32_be32.
+  assert (Hb : blen hd + blen key' + blen val' = blen (hd ++ key' ++ val')) by (rewrite !blen_app; lia).
+  rewrite Hb. unfold bs.
+  replace (hd ++ key' ++ val' ++ be32 crc ++ rest) with ((hd ++ key' ++ val') ++ be32 crc ++ rest)
+    by now rewrite <- !app_assoc.
+  rewrite take_app_exact.
+  rewrite N.mod_small by (pose proof (crc32c_lt (hd ++ key ++ val)); unfold crc, two32c, two32 in *; lia).
+  destruct (crc =? crc32c (hd ++ key' ++ val')) eqn:E3; [|reflexivity].
+  apply N.eqb_eq in E3. exfalso. revert E3. unfold crc. apply crc_one_byte.
+  now apply one_byte_diff_prefix.
+Qed.
+
+(** a one-byte change of the stored checksum: ErrBadChecksum *)
+Lemma entry_crc_corrupt e crc' rest :
+  entry_ok e -> one_byte_diff (be32 (crc32c (enc_entry_body e))) crc' ->
+  decode_entry_from (enc_entry_body e ++ crc' ++ rest) = EdBadCrc.
+Proof.
+  intros Hok Hd. pose proof Hok as (Hk & Hv & Hm & Hx).
+  pose proof (one_byte_diff_length _ _ Hd) as Hl. rewrite blen_be32 in Hl.
+  destruct crc' as [|a [|b [|c [|d [|x t]]]]]; try (cbn in Hl; lia).
+  (* decoding with the stored word be32_val a b c d *)
+  destruct e as [key val meta exp]. cbn [e_key e_val e_meta e_exp] in *.
+  unfold enc_entry_body in *. cbn [e_key e_val e_meta e_exp] in *. rewrite !u32_small in * by assumption.
+  set (hd := enc_header (blen key) (blen val) meta exp) in *.
+  set (bs := (hd ++ key ++ val) ++ [a; b; c; d] ++ rest).
+  assert (Hbs : bs = put_uvarint (blen key) ++ put_uvarint (blen val) ++ put_uvarint meta ++ put_uvarint exp ++
+                     key ++ val ++ [a; b; c; d] ++ rest).
+  { unfold bs, hd, enc_header. now rewrite <- !app_assoc. }
+  assert (H64 : forall x, x < two32 -> x < two64) by (intros; unfold two32, two64 in *; lia).
+  assert (Hh : decode_header_from bs = inr ((blen key, blen val, meta, exp), key ++ val ++ [a; b; c; d] ++ rest)).
+  { unfold decode_header_from. rewrite Hbs.
+    rewrite rd_var_put by auto. rewrite rd_var_put by auto.
+    assert (Hm64 : meta < two64) by (unfold two64; lia).
+    rewrite rd_var_put by exact Hm64.
+    destruct (255 <? meta) eqn:E; [lia|]. rewrite rd_var_put by exact Hx.
+    now rewrite !u32_small by assumption. }
+  unfold decode_entry_from. rewrite Hh.
+  assert (Hhl : blen bs - blen (key ++ val ++ [a; b; c; d] ++ rest) = blen hd).
+  { unfold bs. rewrite !blen_app. lia. }
+  rewrite Hhl.
+  destruct (blen (key ++ val ++ [a; b; c; d] ++ rest) <? blen key) eqn:E1; [rewrite blen_app in E1; lia|].
+  rewrite take_app_exact, drop_app_exact.
+  destruct (blen (val ++ [a; b; c; d] ++ rest) <? blen val) eqn:E2; [rewrite blen_app in E2; lia|].
+  rewrite take_app_exact, drop_app_exact. cbn [app rd_be32].
+  assert (Hb : blen hd + blen key + blen val = blen (hd ++ key ++ val)) by (rewrite !blen_app; lia).
+  rewrite Hb. unfold bs. rewrite take_app_exact.
+  destruct (be32_val a b c d =? crc32c (hd ++ key ++ val)) eqn:E3; [|reflexivity].
+  apply N.eqb_eq in E3. exfalso.
+  destruct Hd as [pre [x [y [suf [E4 [E5 Hxy]]]]]].
+  assert (E6 : be32 (crc32c (hd ++ key ++ val)) = [a; b; c; d]) by (rewrite <- E3; apply be32_be32_val).
+  rewrite E6 in E4. rewrite E4 in E5. apply app_inv_head in E5. inversion E5. contradiction.
+Qed.
